@@ -1,30 +1,11 @@
-import FsnVerif.Generated.Skeleton
-import FsnVerif.Expected.Skeleton
+import FsnVerif.Proofs.SkeletonTieDefs
+import FsnVerif.Proofs.SkeletonTieFns
 /-!
 # Tie T (concurrency skeleton): regenerated from the source on every run = hand-reviewed expectation
+(definitions in `SkeletonTieDefs`, the per-function comparison in `SkeletonTieFns`)
 -/
 namespace SkeletonTie
 open Skel
-
-def lookupFn (n : String) (sk : List FnSkel) : Option (List SkOp) :=
-  match sk.find? (fun f => f.name == n) with
-  | some f => some f.ops
-  | none => none
-
-/-- the functions the protocol model (`Model/Proto`) abstracts -/
-def protocolFns : List String :=
-  ["shared.close", "shared.isClosed", "shared.sendEvent", "shared.sendError", "newShared", "newBackend",
-   "inotify.Close", "inotify.readEvents", "inotify.Add", "inotify.AddWith", "inotify.Remove", "inotify.WatchList",
-   "inotify.handleEvent", "inotify.remove", "inotify.register", "NewWatcher", "NewBufferedWatcher"]
-
-def expectedOf (n : String) : Option (List SkOp) :=
-  match Expected.functions.find? (fun f => f.1 == n) with
-  | some f => some f.2
-  | none => none
-
-/-- every protocol function has exactly the expected lock / send / close / syscall skeleton -/
-theorem protocol_skeleton_ok : protocolFns.all (fun n => lookupFn n Gen.skeleton == expectedOf n && (expectedOf n).isSome) = true := by
-  decide +kernel
 
 /-- no function was added to or removed from the three files -/
 theorem function_set_ok : Gen.skeleton.map (·.name) = Expected.functions.map (·.1) := by decide +kernel
